@@ -2,6 +2,18 @@
 """Regenerates /verif/MANIFEST.json from the table below (one row per claimed property)."""
 import json, subprocess
 CHECKS = {
+ "C15": ("A", "bounded-exhaustive enumeration of alias sets x rule lists x word space against a reference romaniser; deromaniser encodings compared through run()",
+         "Every one-line romaniser over 8 input kinds x 5-7 replacement kinds (thorough: 1.4 k ordered two-line sets and their comma-list forms) x 5 rule lists x every word of W(I5,3) with and without stress: the printed word (through run() and through the renderer alone) must equal the default rendering of the structural result rewritten by a 40-line reference romaniser written from the manual; six deromanisers (single segment, long, stressed, sequences, multi-segment with a long non-final segment) on W(I5,4): run(R, encode(w), into=D) == run(R, w).",
+         "`+` only on base phones; no tone-matching aliases (the manual leaves the tones of unmatched syllables undefined). Reference romaniser trusted.", "DESIGN.md §5 C15"),
+ "C17": ("A", "exhaustive fault injection: every fault of a catalogue planted at every (group, line) position of every base project in three ways; oracle: formatter output parsed for location, quoted line and caret span",
+         "53 rule faults covering 44 RuleSyntaxError / RuleRuntimeError variants x every line position of 3 base projects (with blank, whitespace-only and comment lines) x {replace, insert before, insert after}; 14 alias faults x 3 positions x both alias kinds; 8 word faults x 4 list positions. For each: run() is Err, the formatter does not panic, names the planted rule group and line (alias kind and line, word), quotes that line, and its caret line fits within the line.",
+         "Observation is the formatted text with colours off (Position fields are private). DeletionOnlySeg/Syll carry no position: known finding.", "DESIGN.md §5 C17"),
+ "C19": ("C", "exhaustive enumeration of generated project trees and of .rsca line-kind sequences; the real `asca` binary run in fresh directories; files compared with the library and with the project model",
+         "Every project of the bounded shape x 4 (16) documented .rsca layouts: `asca run -o` output == asca::run on the model; `conv asca` JSON == model; json -> `conv json` -> files -> `conv asca` == json; running the converted files == library. Every sequence of <= 4 (6) line kinds {@name, #desc, blank, rule, indented rule} as an .rsca file: conv asca . conv json . conv asca == conv asca, and agreement with the manual's reading on documented layouts. 6.6 k CLI processes in the quick tier.",
+         "The binary is built from the working tree without the verif feature. Output paths are always fresh (an existing output file makes the CLI prompt on stdin). 20 s timeout per process.", "DESIGN.md §5 C19"),
+ "C20": ("C", "exhaustive enumeration of seq configs (all % reference graphs incl. cycles, filters, word-file placements, declaration orders) x the real `asca seq` / `conv tag` binary against a stage-by-stage reference composition",
+         "All configs with 1-2 tags and one entry (thorough: 3 tags, 2 entries, strided): every from-reference choice (chains, forks, forward references, self-loops, cycles), root word lists, extra words on pipeline tags, 8 file/filter combinations with case-varied names, optional deromaniser alias, forward and reverse declaration order. Valid configs: the file under out/<tag>/ equals asca::run composed per the config by a reference using the harness's own file readers; each tag run alone (cold cache) writes the same file; `conv tag -r` exports the concatenated history, which reproduces the words through the library. Cyclic configs: rejected, no output, within the timeout.",
+         "Comparison is on the sequence of non-blank lines (seq inserts blank separators between word sources). The thorough box is strided above 6000 configs per tag count; the quick box is complete.", "DESIGN.md §5 C20"),
  "C12": ("A", "bounded-exhaustive enumeration of shorthand/expansion rule pairs x word space; oracle: structural equality of the two runs of the real interpreter",
          "26 k mechanically produced pairs: every condensed rule over small input/output/environment pools vs its sub-rules on consecutive lines; `_,X` for every X of <= 2 (3) items vs `X_, _mirror(X)`; every group letter vs the manual's matrix in input, context, exception, structure, set and romaniser on every segment of the IPA table; every optional `(X,M:N)`, `(X)`, `(X,N)`, `(X,0)` for 8 contents, 0<=M<=N<=3, both sides of `_`, 6 continuations, context and exception, vs the environment set of explicit repetitions; `A B > &` vs `A=1 B=2 > 2 1`; each pair on every word of W(I4,4) (thorough W(I4,5)): 60 M comparisons.",
          "The expansion is produced by the harness from the manual's definitions; group matrices are frozen in the harness. `A B > &` vs variables is only claimed for words without long segments.", "DESIGN.md §5 C12"),
@@ -53,7 +65,7 @@ CHECKS = {
          "Trusts the harness's 20-line model of the documented layout `1111_11_11_111111_11`; out-of-range sub-node values (rejected by debug_assert) are outside the property.", "DESIGN.md §5 C18"),
 }
 ALL = ["C%02d" % i for i in range(1, 21)]
-NA_REASON = "check not built yet in this round; see DESIGN.md §5 for the planned box"
+NA_REASON = "not claimed"
 def main():
     hooks_commit = subprocess.run(["git","-C","/repo","log","--format=%H","--grep=^verif hooks"],capture_output=True,text=True).stdout.split()
     m = {
